@@ -43,6 +43,15 @@ CHECKS = {
  "C03": (TV, "A+B", "SMT equivalence between the captured CSP text (independent Sugar-syntax reader) and the reference translation (z3); CrossHair for reply parsing",
          "The string handed to each of the five back ends' external entry point is captured; z3 decides text <=> posted constraints for all variable values (native graph operators included); declarations and the answer-key line are compared exactly; reply parsing is executed symbolically by CrossHair for both reply formats with symbolic values, listed-subset flags and ids != positions.",
          "independent Sugar reader; reference translator; z3; CrossHair; reply grammar of CspuzSugarInterface.java", "2/C03"),
+ "C15": ("other", "B", "CrossHair symbolic execution (z3) of the real combinators with validated pure-Python models of hex()/int(); value-side and text-side round-trip postconditions",
+         "Value-side harnesses (symbolic items: values around 15/16/255/256/4095, space runs across the one-character limit, partial digit groups, small boards) and text-side harnesses (EVERY Unicode text of length <= 3-4, whose decoded values must re-encode and decode to themselves consuming the text exactly) for every combinator and a fixed list of compositions, Rooms / ValuedRooms on boards incl. 1xN / Nx1 with symbolic room/cell orderings. Encoders are explored path-per-value.",
+         "CrossHair soundness; models of hex/int validated each run; non-ASCII decimal digits cut from int() (finite table in C17)", "2/C15"),
+ "C16": ("other", "B", "CrossHair symbolic execution (z3) of each module's serialize/deserialize pair against an independent pzpr-format decoder",
+         "Symbolic problems on small non-square boards for nurikabe, masyu, slitherlink, sudoku, nurimisaki, yajilin, heyawake, lits, norinori, compass, star_battle, aquarium: round trip incl. dimensions, puzz.link field order, body equal to what vlib/eb/pzpr.py reads, legacy helper encoders equal to the combinator codecs.",
+         "CrossHair soundness; vlib/eb/pzpr.py transcription of the pzpr encodings; builtin models", "2/C16"),
+ "C17": ("other", "B", "CrossHair symbolic execution (z3) of the real decoders on fully symbolic Unicode text, per declared board size",
+         "For each of 9 puzzle codecs and the Rooms/ValuedRooms/Grid combinators, every text of length <= 2-4 and every declared (height,width) in 0..2 (0..3 thorough): only None / ValueError / a problem of the declared dimensions that serialises and decodes to itself; URL level with symbolic width/height/name/flags over a fixed body list and a fully symbolic short url. Longer bodies and the recursion-depth risk of Rooms on huge boards are outside the bound.",
+         "CrossHair soundness; builtin models (exact except for the stated non-ASCII-digit cut, covered by a finite table)", "2/C17"),
 }
 NA = {
  "C18": "SegmentationBuilder2D is BFS/DFS over sets/dicts/deques driven by random: CrossHair did not complete a single path of a one-step harness on a 2x2 board in 10 CPU-minutes (measured, DESIGN 2/C18); a hand SMT model would not be the real code.",
